@@ -3,14 +3,17 @@
    variant and every operation, along any chain (every Result-receiver implementation is `self.clone()?.op(..)`, a
    bind); a list of results reports its first error; the constructors, the reshaping family, coordinate translation
    and the axis operations never evaluate to Panic (invalid arguments give Err), option names parse to a known kind or
-   a parameter error.
+   a parameter error.  AXIS TOTALITY (the C09_axis_total theorems): for EVERY signed axis value of the isize range, flip, roll,
+   sort, the reductions, scans and counting / searching operations (any total 1-D body), unpack_bits and pack_bits on a
+   well-formed non-empty array answer with an array or with AxisOutOfBounds — the operation's specification for a
+   valid axis joined with its refusal for an invalid one; never Panic.
    PARTIAL: totality is proved of the model's entry sequences, whose Panic guards are hand-derived from the Rust
    source; that the real code has no panic site the model lacks is established by the out-of-domain stream of the
    correspondence run (every axis in [-rank-3, rank+3] and at +-2^31, +-2^62, isize::MIN/MAX, indices up to len+2,
    wrong-length vectors, unknown option names, zero parts, on arrays of rank 1..4 for every modelled operation) and by
    a generated program (tools/inventory.py) that feeds all 15 error variants to all 202 chainable methods of the
    crate.  Stack overflow, allocation failure and overflow on astronomically large shapes are outside the model. *)
-From ArrRs Require Import Index Axis Sort Bits Errors_proofs.
+From ArrRs Require Import Index Axis Axis_proofs Broadcast_proofs Reduce Reorder Sort Sort_proofs Bits Errors_proofs Total_axis.
 
 Theorem C09_propagate : forall (A B : Type) (e : err) (op : A -> res B), on_result (Err e) op = Err e.
 Proof. exact @propagate. Qed.
@@ -43,3 +46,34 @@ Theorem C09_option_names : forall s,
   ((exists k, parse_kind s = Ok k) \/ parse_kind s = Err EParam) /\
   (parse_bit_order s = Ok Big \/ parse_bit_order s = Ok Little \/ parse_bit_order s = Err EParam).
 Proof. intros s. split; [apply parse_kind_cases | apply parse_bit_order_cases]. Qed.
+
+Theorem C09_value_or_axis_error_def : forall (A : Type) (r : res A),
+  value_or_axis_error r <-> ((exists v, r = Ok v) \/ r = Err EAxis).
+Proof. reflexivity. Qed.
+
+Theorem C09_axis_total_reorder : forall (T : Type) (d : T) (a : arr T) s z,
+  wf a -> pos_shape (shape a) -> (Z.of_nat (ndim a) < 9223372036854775808)%Z -> (- 9223372036854775808 <= z < 9223372036854775808)%Z ->
+  value_or_axis_error (flip d a (Some [z])) /\ (2 <= ndim a -> value_or_axis_error (roll d a [s] (Some [z]))).
+Proof. intros. split; [apply flip_total | intros; apply roll_total]; assumption. Qed.
+
+Theorem C09_axis_total_lanes : forall (T U : Type) (d : T) (du : U) (a : arr T) z
+    (g1 : list T -> res T) (h : list T -> T) (g : list T -> list T) (i1 : list T -> res U) (hi : list T -> U) keepdims,
+  wf a -> pos_shape (shape a) -> (Z.of_nat (ndim a) < 9223372036854775808)%Z -> (- 9223372036854775808 <= z < 9223372036854775808)%Z ->
+  (forall l, g1 l = Ok (h l)) -> (forall l, length (g l) = length l) -> (forall l, i1 l = Ok (hi l)) ->
+  value_or_axis_error (reduce d g1 a (Some z)) /\ value_or_axis_error (scan d g a (Some z)) /\
+  value_or_axis_error (index_reduce d du i1 a (Some z) keepdims).
+Proof.
+  intros. split; [eapply reduce_total; eauto | split; [apply scan_total; auto | eapply index_reduce_total; eauto]].
+Qed.
+
+Theorem C09_axis_total_sort : forall (T : Type) (ltb : T -> T -> bool) (d : T),
+  (forall x y, ltb x y = true -> le ltb x y) -> (forall x y z, le ltb x y -> le ltb y z -> le ltb x z) ->
+  forall (a : arr T) z k,
+  wf a -> pos_shape (shape a) -> (Z.of_nat (ndim a) < 9223372036854775808)%Z -> (- 9223372036854775808 <= z < 9223372036854775808)%Z ->
+  value_or_axis_error (sort_arr ltb d a (Some z) (Ok k)).
+Proof. exact @sort_total. Qed.
+
+Theorem C09_axis_total_bits : forall (a : arr Z) z o,
+  wf a -> pos_shape (shape a) -> (Z.of_nat (ndim a) < 9223372036854775808)%Z -> (- 9223372036854775808 <= z < 9223372036854775808)%Z ->
+  value_or_axis_error (unpack_bits a (Some z) None (Ok o)) /\ value_or_axis_error (pack_bits a (Some z) (Ok o)).
+Proof. intros. split; [apply unpack_bits_total | apply pack_bits_total]; assumption. Qed.
